@@ -77,6 +77,16 @@ class Model(object):
 LABELS = {c: c.__name__ for c in DRAFTS.values()}
 
 
+def role(c):
+    """Coarse description of a class for signatures (never a step number or an address)."""
+    try:
+        if c in LABELS:
+            return LABELS[c]
+    except TypeError:
+        pass
+    return getattr(c, "_c20_role", None) or ("caller-default" if c is SENTINEL else "other-object")
+
+
 def label(c):
     try:
         return LABELS.get(c) or getattr(c, "_c20_label", None) or repr(c)
@@ -165,13 +175,14 @@ def merge_bodies(b1, b2):
     return b
 
 
-def make_tag_class(lbl, meta_schema=None, **kw):
+def make_tag_class(lbl, meta_schema=None, role="class-registered-in-history", **kw):
     c = validators.create(meta_schema=meta_schema or {}, validators={"tag": _tag}, **kw)
     c._c20_label = lbl
+    c._c20_role = role
     return c
 
 
-TAG = make_tag_class("explicit-unregistered-class")      # create() without version registers nothing
+TAG = make_tag_class("explicit-unregistered-class", role="explicit-unregistered-class")      # create() without version registers nothing
 EXPLICIT = [jsonschema.Draft3Validator, jsonschema.Draft4Validator, jsonschema.Draft6Validator,
             jsonschema.Draft7Validator, TAG]
 SENTINEL = type("SentinelDefault", (), {"__repr__": lambda s: "<sentinel default>"})()
@@ -290,7 +301,7 @@ def selection_problem(obs, warned, schema_warned, exp_cls, exp_warn):
     if obs[0] == "raises":
         return "exception-" + obs[1]
     if obs[1] is not exp_cls:
-        return "selected-%s-expected-%s" % (label(obs[1]), label(exp_cls))
+        return "selected-%s-expected-%s" % (role(obs[1]), role(exp_cls))
     if exp_warn and not warned:
         return "no-DeprecationWarning"
     if not exp_warn and schema_warned:
@@ -328,10 +339,7 @@ def check_validate(model, schema, lbl, x, explicit=None):
     obs, warned, schema_warned = validate_outcome(schema, x, kw, explicit)
     prob = None
     if obs != exp:
-        prob = "outcome-%s-expected-%s" % (obs[0] if obs[0] != "raises" else "exception-" + obs[1],
-                                           exp[0] if exp[0] != "raises" else "exception-" + exp[1])
-        if obs[0] == exp[0]:
-            prob = "different-" + obs[0]
+        prob = "exception-" + obs[1] if obs[0] == "raises" else "behaves-unlike-the-selected-class"
     elif exp_warn is True and not warned:
         prob = "no-DeprecationWarning"
     elif exp_warn is False and schema_warned:
@@ -416,17 +424,18 @@ def apply_op(op, lbl, model):
     if kind == "validates":
         meta = {} if p["key"] is None else {p["key"]: p["uri"]}
         kw = {"id_of": ID_OF_ID} if p["key"] == "id" else {}
-        c = make_tag_class(lbl, meta, **kw)
+        c = make_tag_class(lbl, meta, role="validates-class", **kw)
         r = validators.validates(p["version"])(c)
         if r is not c:
             raise AssertionError("validates() did not return the class")
         own = p["uri"]
     elif kind == "create":
-        c = make_tag_class(lbl, {p["key"]: p["uri"]}, version=p["version"])
+        c = make_tag_class(lbl, {p["key"]: p["uri"]}, role="create-class", version=p["version"])
         own = p["uri"]
     elif kind == "extend":
         c = validators.extend(DRAFTS[p["base"]], validators={"tag": _tag}, version=p["version"])
         c._c20_label = lbl
+        c._c20_role = "extension-of-Draft%dValidator" % p["base"]
         own = DRAFT_IDS[p["base"]]
     else:
         c = validators.validates(p["version"])(DRAFTS[p["base"]])
@@ -521,7 +530,7 @@ def shrink_history(ops, hist, table, what, problem):
         return any(w == what and p == problem for w, p, _ in probs)
     cur = list(hist)
     changed = True
-    while changed and len(cur) > 1:
+    while changed and len(cur) > 1:     # never to the empty history: pre-existing problems are filtered out before
         changed = False
         for i in range(len(cur)):
             cand = cur[:i] + cur[i + 1:]
@@ -544,6 +553,7 @@ def plan(ctx):
     if ctx.thorough:
         for i in range(len(sps)):
             units.append(("pairs", i))
+    units.append(("hist", 0, ()))          # the empty history: the registries as imported
     for j in range(len(ops)):
         if ctx.thorough:
             for k in range(len(ops)):
@@ -551,7 +561,7 @@ def plan(ctx):
             units.append(("hist", 1, (j,)))
         else:
             units.append(("hist", depth, (j,)))
-    nh = sum(len(ops) ** n for n in range(1, depth + 1))
+    nh = sum(len(ops) ** n for n in range(0, depth + 1))
     X = INSTANCES_T if ctx.thorough else INSTANCES_Q
     return {
         "units": units,
@@ -561,7 +571,7 @@ def plan(ctx):
                  "{validator_for, validator_for(default=Draft3Validator / a sentinel), validate(), validate(cls=each of "
                  "4 drafts + an unregistered class), cli.run without and with --validator}; cases are distinct "
                  "by construction (product of alphabets whose members are pairwise different). histories: every "
-                 "sequence of length 1..%d over %d registration operations, each executed from a fresh snapshot of "
+                 "sequence of length 0..%d over %d registration operations, each executed from a fresh snapshot of "
                  "the real registries and probed with %d spellings + the name table + the behaviour behind every id; "
                  "histories are distinct sequences. Non-trivial = a case on which at least two draft classes behave "
                  "differently (measured: the four classes' outcomes for the body/instance are not all equal), or a "
@@ -595,6 +605,21 @@ def draft_disagreement(schema, lbl, x):
 
 def spelling_kind(sp, kinds):
     return kinds.get(sp, "custom-id")
+
+
+SHRINK_SPELLINGS = [(ABSENT, "any-spelling")] + [(DRAFT_IDS[d], "registered-id") for d in sorted(DRAFT_IDS)] + \
+    [("http://example.com/unknown-schema#", "unknown-uri")]
+
+
+def shrink_kind(sp, kind, fails):
+    """Coarse spelling class for a signature: the first canonical spelling (absent, the four ids
+    as published, one unknown URI) under which the same problem shows, else the spelling's own class."""
+    for s2, k2 in SHRINK_SPELLINGS:
+        if s2 == sp:
+            return k2 if s2 == ABSENT else kind
+        if fails(s2):
+            return k2
+    return kind
 
 
 def static_cases(ws, model, sp, kind, bodies, X, res, kinds):
@@ -640,13 +665,9 @@ def static_cases(ws, model, sp, kind, bodies, X, res, kinds):
                 oc = "validate%s:%s" % ("" if explicit is None else "-cls", oclass)
                 res["outcomes"][oc] = res["outcomes"].get(oc, 0) + 1
                 if prob:
-                    entry = "validate" if explicit is None else "validate-cls=" + label(explicit)
-                    k2 = kind
-                    if sp != ABSENT:      # shrink: does the spelling matter at all?
-                        s2 = build_schema(ABSENT, body)
-                        p2, _, _ = check_validate(model, s2, lbl, x, explicit)
-                        if p2 == prob:
-                            k2 = "any-spelling"
+                    entry = "validate" if explicit is None else "validate-cls"
+                    k2 = shrink_kind(sp, kind, lambda s2: check_validate(
+                        model, build_schema(s2, body), lbl, x, explicit)[0] == prob)
                     res["viol"].append({"signature": "C20|%s|%s|%s" % (entry, prob, k2),
                                         "case": {"entry": entry, "schema": schema, "instance": x, "body": lbl,
                                                  "cls": None if explicit is None else label(explicit)},
@@ -660,8 +681,10 @@ def static_cases(ws, model, sp, kind, bodies, X, res, kinds):
             oc = "cli%s:%s" % ("" if vname is None else "-validator", oclass[:40])
             res["outcomes"][oc] = res["outcomes"].get(oc, 0) + 1
             if kindp:
-                entry = "cli" if vname is None else "cli-validator=" + vname.rsplit(".", 1)[-1]
-                res["viol"].append({"signature": "C20|%s|%s|%s" % (entry, kindp, kind),
+                entry = "cli" if vname is None else "cli-validator"
+                k2 = shrink_kind(sp, kind, lambda s2: check_cli(
+                    model, ws, build_schema(s2, body), lbl, vname)[0] == kindp)
+                res["viol"].append({"signature": "C20|%s|%s|%s" % (entry, kindp, k2),
                                     "case": {"entry": entry, "schema": schema, "body": lbl, "validator": vname,
                                              "instances": ws.instances},
                                     "detail": detail, "size": len(json.dumps(schema)) + 50})
@@ -706,7 +729,7 @@ def run_unit(unit, ctx):
                             oc = "validate-boolean:%s" % oclass
                             res["outcomes"][oc] = res["outcomes"].get(oc, 0) + 1
                             if prob:
-                                entry = "validate" if explicit is None else "validate-cls=" + label(explicit)
+                                entry = "validate" if explicit is None else "validate-cls"
                                 res["viol"].append({"signature": "C20|%s|%s|boolean-schema" % (entry, prob),
                                                     "case": {"entry": entry, "schema": schema, "instance": x,
                                                              "body": "bool",
@@ -717,7 +740,7 @@ def run_unit(unit, ctx):
                         res["ev"] += 1
                         res["traces"] += 1
                         if kindp:
-                            entry = "cli" if vname is None else "cli-validator=" + vname.rsplit(".", 1)[-1]
+                            entry = "cli" if vname is None else "cli-validator"
                             res["viol"].append({"signature": "C20|%s|%s|boolean-schema" % (entry, kindp),
                                                 "case": {"entry": entry, "schema": schema, "body": "bool",
                                                          "validator": vname, "instances": ws.instances},
@@ -728,18 +751,16 @@ def run_unit(unit, ctx):
         table = probe_table(thorough)
         canon_seen = set()
         takeovers = 0
-        base_model = Model()
-        before = probe_state(base_model, table)
-        if before:
-            raise RuntimeError("registries differ from the initial model before any history: %r" % (before[:2],))
+        snap0 = snapshot()
+        before = [(w, p, d.get("spelling")) for w, p, d in probe_state(Model(), table)]
         for n in range(0, depth - len(prefix) + 1):
             for rest in itertools.product(range(len(ops)), repeat=n):
                 hist = tuple(prefix) + rest
                 probs, cs, takeover = run_history(ops, hist, table)
                 res["ev"] += 1
-                res["nt"] += 1
+                res["nt"] += 1 if hist else 0
                 res["traces"] += 1
-                transitions += 1          # the last operation of this history, probed in full
+                transitions += 1 if hist else 0     # the last operation of this history, probed in full
                 canon_seen.add(cs)
                 takeovers += 1 if takeover else 0
                 oc = "history:%d-ops:%s" % (len(hist), "draft-id-taken-over" if takeover else "draft-ids-kept")
@@ -747,6 +768,8 @@ def run_unit(unit, ctx):
                 res["counters"]["probes"] = res["counters"].get("probes", 0) + len(table) * 3 + len(cs[1])
                 done = set()
                 for what, problem, detail in probs:
+                    if hist and (what, problem, detail.get("spelling")) in before:
+                        continue        # present before any registration: reported by the empty history
                     if (what, problem) in done:
                         continue
                     done.add((what, problem))
@@ -757,12 +780,15 @@ def run_unit(unit, ctx):
                                                  "what": what, "problem": problem},
                                         "detail": dict(detail, unshrunk=[ops[j][0] for j in hist]),
                                         "size": len(small)})
-                if len(res["samples"]) < 2 and len(hist) == depth and hist[-1] == 3:
+                if len(res["samples"]) < 2 and hist and len(hist) == depth and hist[-1] == 3:
                     res["samples"].append({"history": [ops[j][0] for j in hist],
                                            "model_ids": {k: v for k, v in cs[1]}})
-        after = probe_state(Model(), table)
-        if after:
-            raise RuntimeError("registries not restored after the histories: %r" % (after[:2],))
+        # restoration: same registry contents (identity of every class) and same answers to every probe
+        snap1 = snapshot()
+        after = [(w, p, d.get("spelling")) for w, p, d in probe_state(Model(), table)]
+        same = all(set(a) == set(b) and all(a[k] is b[k] for k in a) for a, b in zip(snap0, snap1))
+        if not same or after != before:
+            raise RuntimeError("registries not restored after the histories: %r / %r" % (before[:2], after[:2]))
         res["counters"]["restorations_verified"] = 1
         res["counters"]["shared_id_takeover_histories"] = takeovers
         states = len(canon_seen)
